@@ -195,8 +195,13 @@ func repoFrames(stack string, n int) []string {
 
 // goroutinePanics turns GOROUTINE-PANIC events (a panic that escaped a goroutine of the
 // code under test: in production the process dies) into violations.
+var reNumLine = regexp.MustCompile(`:[0-9]+`)
+
 func goroutinePanics(res *simrt.Result) []Violation {
 	var out []Violation
+	for _, f := range res.Fatals {
+		out = append(out, Violation{Clause: "fatal-error", Fingerprint: reNumLine.ReplaceAllString(f, ""), Detail: "a real execution dies here with an unrecoverable Go runtime fatal error: " + f})
+	}
 	for _, th := range res.Threads {
 		if th.PanicVal == nil {
 			continue
